@@ -172,6 +172,14 @@ class _ReadSourceGenerator:
             if not issubclass(field_type, SUPPORTED_TYPES):
                 raise TypeError(f"Unsupported type for compiler: {field_type}")
 
+            element_type = field_type
+            while issubclass(element_type, BaseArray):
+                element_type = element_type.type
+
+            if issubclass(element_type, Pointer) and not issubclass(self.cs.pointer, Packed):
+                # Pointers are unpacked as part of a struct format, which needs a packed pointer type
+                raise TypeError(f"Unsupported pointer type for compiler: {self.cs.pointer}")
+
             if prev_was_bits and not field.bits:
                 yield "bit_reader.reset()"
                 prev_was_bits = False
